@@ -224,23 +224,25 @@ def getFocus (st : St σ K) (F : Frame σ) : Option (σ × List σ) :=
 Every function takes the frame `F`, the current sequence `s`, the state, and returns
 `(outcome, new current sequence, state)`. -/
 
+/-- the test applied to each candidate of the exhaustive constraint search -/
+def exhaustiveTest (ops : SpecOps σ K) (F : Frame σ) (focus : Option (σ × List σ)) (v : Seq) (st : St σ K) :
+    Except Err Bool × St σ K :=
+  match focus with
+  | some (f, others) =>
+    match evalAt ops f v st with
+    | (.error e, st) => (.error e, st)
+    | (.ok e, st) => if e.passes then allPass ops v others st else (.ok false, st)
+  | none => allConstraintsPass ops F v st
+
 /-- the loop of `resolve_constraints_by_exhaustive_search`; `cur` is the current sequence -/
 def exhaustiveLoop (ops : SpecOps σ K) (F : Frame σ) (focus : Option (σ × List σ)) :
     List Seq → Seq → St σ K → Except Err Bool × Seq × St σ K
   | [], cur, st => (.ok false, cur, st)
   | v :: vs, _, st =>
-    let st := logSeq v st
-    let (test, st) : Except Err Bool × St σ K :=
-      match focus with
-      | some (f, others) =>
-        match evalAt ops f v st with
-        | (.error e, st) => (.error e, st)
-        | (.ok e, st) => if e.passes then allPass ops v others st else (.ok false, st)
-      | none => allConstraintsPass ops F v st
-    match test with
-    | .error e => (.error e, v, st)
-    | .ok true => (.ok true, v, st)
-    | .ok false => exhaustiveLoop ops F focus vs v st
+    match exhaustiveTest ops F focus v (logSeq v st) with
+    | (.error e, st) => (.error e, v, st)
+    | (.ok true, st) => (.ok true, v, st)
+    | (.ok false, st) => exhaustiveLoop ops F focus vs v st
 
 /-- `resolve_constraints_by_exhaustive_search` -/
 def resolveExhaustive (ops : SpecOps σ K) (F : Frame σ) (s : Seq) (st : St σ K) :
@@ -513,6 +515,18 @@ def bestSum (ops : SpecOps σ K) (os : List σ) : Option K :=
       | none => acc) Score.zero)
   else none
 
+/-- `best_possible_score is not None and score >= best_possible_score` -/
+def reachedBest (bp : Option K) (score : K) : Bool :=
+  match bp with
+  | some b => Score.le b score
+  | none => false
+
+/-- `tolerance is not None and stagnating_iterations > tolerance` -/
+def stagnated (sett : Settings) (stagnating : Nat) : Bool :=
+  match sett.stagnationTolerance with
+  | some tol => decide (stagnating > tol)
+  | none => false
+
 /-- the loop of `optimize_by_exhaustive_search`; returns the best sequence found -/
 def optExhaustiveLoop (ops : SpecOps σ K) (F : Frame σ) (bestPossible : Option K) :
     List Seq → K → Seq → Seq → St σ K → Except Err Seq × Seq × St σ K
@@ -527,10 +541,8 @@ def optExhaustiveLoop (ops : SpecOps σ K) (F : Frame σ) (bestPossible : Option
       | (.error e, st) => (.error e, v, st)
       | (.ok score, st) =>
         if Score.lt bestScore score then
-          match bestPossible with
-          | some bp => if Score.le bp score then (.ok v, v, st)
-                       else optExhaustiveLoop ops F bestPossible vs score v v st
-          | none => optExhaustiveLoop ops F bestPossible vs score v v st
+          if reachedBest bestPossible score then (.ok v, v, st)
+          else optExhaustiveLoop ops F bestPossible vs score v v st
         else optExhaustiveLoop ops F bestPossible vs bestScore bestSeq v st
 
 /-- `optimize_by_exhaustive_search` -/
@@ -556,8 +568,8 @@ def optRandomLoop (ops : SpecOps σ K) (sett : Settings) (F : Frame σ) (bestPos
     Nat → K → Nat → Seq → St σ K → Except Err Unit × Seq × St σ K
   | 0, _, _, s, st => (.ok (), s, st)
   | fuel + 1, score, stagnating, s, st =>
-    if (match bestPossible with | some bp => Score.le bp score | none => false) then (.ok (), s, st) else
-    if (match sett.stagnationTolerance with | some tol => decide (stagnating > tol) | none => false) then (.ok (), s, st) else
+    if reachedBest bestPossible score then (.ok (), s, st) else
+    if stagnated sett stagnating then (.ok (), s, st) else
     match mutate sett F s st with
     | (.error e, st) => (.error e, s, st)
     | (.ok s', st) =>
